@@ -372,14 +372,16 @@ class RequestCache(TaskManager):
         if identifier in self._identifiers:
             self._identifiers.pop(identifier)
 
-        cache.on_timeout()
-
-        for future, on_timeout in cache.managed_futures:
-            if not future.done():
-                if isinstance(on_timeout, Exception):
-                    future.set_exception(on_timeout)
-                else:
-                    future.set_result(on_timeout)
+        try:
+            cache.on_timeout()
+        finally:
+            # Also when the callback fails: the request did time out and nothing else will ever resolve its futures.
+            for future, on_timeout in cache.managed_futures:
+                if not future.done():
+                    if isinstance(on_timeout, Exception):
+                        future.set_exception(on_timeout)
+                    else:
+                        future.set_result(on_timeout)
 
         self.cancel_pending_task(cache)
 
